@@ -422,8 +422,8 @@ Qed.
 
 Definition vars_of (body : stmt) : list string :=
   filter (fun x => negb (mem x [])) (nodup string_dec (hoist_vars (SSeq SSkip body))).
-Definition env_of (vs : list string) : list (string * nat) := rev (alloc_names vs 1) ++ [("inputs", 0)].
-Definition store_of (vs : list string) : list val := VInp :: map (fun _ => VUndef) vs.
+Definition env_of (vs : list string) : list (string * nat) := rev (alloc_names vs 3) ++ genv.
+Definition store_of (vs : list string) : list val := gstore ++ map (fun _ => VUndef) vs.
 
 Lemma run_ff inp n body : hoist_funs body = [] ->
   run inp n SSkip body = exec inp n (env_of (vars_of body)) (SSeq SSkip body) (store_of (vars_of body), []).
@@ -454,26 +454,36 @@ Proof.
   - right. apply IH. exact H.
 Qed.
 Lemma env_of_in vs z l : In (z, l) (env_of vs) ->
-  (In (z, l) (alloc_names vs 1) /\ 1 <= l) \/ (z = "inputs" /\ l = 0).
+  (In (z, l) (alloc_names vs 3) /\ 3 <= l) \/ (In (z, l) genv).
 Proof.
   unfold env_of. intros H. apply in_app_or in H. destruct H as [H|H].
   - apply in_rev in H. left. split; [exact H|eapply alloc_in_ge; eauto].
-  - destruct H as [H|[]]. inversion H. right. split; reflexivity.
+  - right. exact H.
+Qed.
+Lemma genv_cases z l : In (z, l) genv -> (z = "inputs" /\ l = 0) \/ (z = "self" /\ l = 1) \/ (z = "runtime" /\ l = 2).
+Proof.
+  unfold genv. simpl. intros [H|[H|[H|[]]]]; inversion H; auto.
 Qed.
 Lemma env_of_inj vs : forall z x l,
   assoc z (env_of vs) = Some l -> assoc x (env_of vs) = Some l -> z = x.
 Proof.
   intros z x l Hz Hx. apply assoc_in, env_of_in in Hz. apply assoc_in, env_of_in in Hx.
-  destruct Hz as [[Hz Lz]|[-> Lz]]; destruct Hx as [[Hx Lx]|[-> Lx]]; try lia; try reflexivity.
-  eapply alloc_inj; eauto.
+  destruct Hz as [[Hz Lz]|Hz]; destruct Hx as [[Hx Lx]|Hx].
+  - eapply alloc_inj; eauto.
+  - apply genv_cases in Hx. lia.
+  - apply genv_cases in Hz. lia.
+  - apply genv_cases in Hz. apply genv_cases in Hx.
+    destruct Hz as [[-> Lz]|[[-> Lz]|[-> Lz]]]; destruct Hx as [[-> Lx]|[[-> Lx]|[-> Lx]]]; try reflexivity; lia.
 Qed.
 Lemma nth_map_undef : forall (vs : list string) l, nth l (map (fun _ => VUndef) vs) VUndef = VUndef.
 Proof. induction vs; intros l; destruct l; simpl; auto. Qed.
 Lemma Inv_init vs : Inv (env_of vs) ["inputs"] (store_of vs, []).
 Proof.
-  intros z l A B. apply assoc_in, env_of_in in A. simpl in B.
-  destruct l as [|l']; [|rewrite nth_map_undef in B; discriminate].
-  destruct A as [[_ L]|[-> _]]; [lia|reflexivity].
+  intros z l A B. apply assoc_in, env_of_in in A. unfold store_of, gstore in B. cbn [fst] in B.
+  destruct l as [|[|[|l']]]; cbn [app nth] in B; try discriminate.
+  - destruct A as [[_ L]|A]; [lia|]. apply genv_cases in A.
+    destruct A as [[-> _]|[[_ L]|[_ L]]]; [reflexivity|lia|lia].
+  - rewrite nth_map_undef in B. discriminate.
 Qed.
 
 (* every terminating evaluation, on every inputs object, of a body of the fragment reads only dependencies,
